@@ -194,11 +194,16 @@ structure FlagsTrue (f : TFlags) : Prop where
   sFinAddedAfter : f.sFinAddedAfter = true
   finFullCompare : f.finFullCompare = true
   decodedKeepRaw : f.decodedKeepRaw = true
+  ccsOnlyByRecord : f.ccsOnlyByRecord = true
 
 theorem flagsTrue {f : TFlags} (h : f.sound = true) : FlagsTrue f := by
   simp only [TFlags.sound, Bool.and_eq_true] at h
-  obtain ⟨⟨⟨⟨⟨⟨⟨⟨⟨⟨⟨⟨⟨⟨h1, h2⟩, h3⟩, h4⟩, h5⟩, h6⟩, h7⟩, h8⟩, h9⟩, h10⟩, h11⟩, h12⟩, h13⟩, h17⟩, h18⟩ := h
-  exact ⟨h1, h2, h3, h4, h5, h6, h7, h8, h9, h10, h11, h12, h13, h17, h18⟩
+  obtain ⟨⟨⟨⟨⟨⟨⟨⟨⟨⟨⟨⟨⟨⟨⟨h1, h2⟩, h3⟩, h4⟩, h5⟩, h6⟩, h7⟩, h8⟩, h9⟩, h10⟩, h11⟩, h12⟩, h13⟩, h17⟩, h18⟩, h19⟩ := h
+  exact ⟨h1, h2, h3, h4, h5, h6, h7, h8, h9, h10, h11, h12, h13, h17, h18, h19⟩
+
+/-- the read cipher is switched by ChangeCipherSpec records only: the implicit switch never fires -/
+theorem skipCCS_eq {P : Prims} {f : TFlags} (ft : FlagsTrue f) (h : HS P) : HS.skipCCS f h = h := by
+  simp [HS.skipCCS, ft.ccsOnlyByRecord]
 
 /-- with `raw` kept, `transcriptMsg` of a decoded message hashes the received bytes -/
 theorem asMarshalled_eq {P : Prims} {f : TFlags} (ft : FlagsTrue f) (W : World P) (r : Role) (m : Msg) :
@@ -708,6 +713,7 @@ theorem reach_shape (hk : k.ok = true) (hf : f.sound = true) {h : HS P} (hr : Re
   | init r => exact shape_init W (codesNe hk) r
   | msg m _ hw ih => exact shape_onMsg W (flagsTrue hf) (codesNe hk) ih hw
   | ccs _ ih => exact shape_onCCS (codesNe hk) ih
+  | skip _ ih => rw [skipCCS_eq (flagsTrue hf)]; exact ih
   | fail a _ _ => exact shape_fail _ a
 
 /-! ### roles never change -/
@@ -739,6 +745,18 @@ theorem serverFlight_role (h : HS P) : (HS.serverFlight k f W h).role = h.role :
 theorem onCCS_role (h : HS P) : (HS.onCCS k h).role = h.role := by
   unfold HS.onCCS; split <;> rfl
 
+theorem skipCCS_role (h : HS P) : (HS.skipCCS f h).role = h.role := by
+  unfold HS.skipCCS
+  split
+  · rfl
+  · split <;> rfl
+
+theorem skipCCS_log (h : HS P) : (HS.skipCCS f h).log = h.log := by
+  unfold HS.skipCCS
+  split
+  · rfl
+  · split <;> rfl
+
 theorem onMsg_role (h : HS P) (m : Msg) : (HS.onMsg k f W h m).role = h.role := by
   unfold HS.onMsg
   simp only []
@@ -755,6 +773,7 @@ inductive ReachR (k : Codes) (f : TFlags) (W : World P) (r : Role) : HS P → Pr
   | init : ReachR k f W r (HS.init k W r)
   | msg {h : HS P} (m : Msg) : ReachR k f W r h → WellFramed m → ReachR k f W r (HS.onMsg k f W h m)
   | ccs {h : HS P} : ReachR k f W r h → ReachR k f W r (HS.onCCS k h)
+  | skip {h : HS P} : ReachR k f W r h → ReachR k f W r (HS.skipCCS f h)
   | fail {h : HS P} (a : Nat) : ReachR k f W r h → ReachR k f W r (HS.fail h a)
 
 theorem ReachR.reach {r : Role} {h : HS P} (hr : ReachR k f W r h) : Reach k f W h := by
@@ -762,6 +781,7 @@ theorem ReachR.reach {r : Role} {h : HS P} (hr : ReachR k f W r h) : Reach k f W
   | init => exact .init r
   | msg m _ hw ih => exact .msg m ih hw
   | ccs _ ih => exact .ccs ih
+  | skip _ ih => exact .skip ih
   | fail a _ ih => exact .fail a ih
 
 theorem ReachR.role {r : Role} {h : HS P} (hr : ReachR k f W r h) : h.role = r := by
@@ -769,6 +789,7 @@ theorem ReachR.role {r : Role} {h : HS P} (hr : ReachR k f W r h) : h.role = r :
   | init => cases r <;> rfl
   | msg m _ _ ih => rw [onMsg_role]; exact ih
   | ccs _ ih => rw [onCCS_role]; exact ih
+  | skip _ ih => rw [skipCCS_role]; exact ih
   | fail a _ ih => exact ih
 
 end inv
